@@ -264,13 +264,17 @@ theorem tempCopy_PA {n : Int} (c : Ctx) (h : PA n c) : OutcomeP (PA n) (opTempCo
     · trivial
   · exact h
 
-theorem attach_same (s : Seg) (i other : Nat) : SameT s (s.attach i other) := by
+theorem attach_same (s : Seg) (i other : Nat) (ws : Bool := false) : SameT s (s.attach i other ws) := by
   unfold Seg.attach
   simp only []
   have hA := unparent_same s i
+  have keepT : ∀ (t : Seg) (k : Nat) (f : Slot → Slot), (∀ a, TreeOnly a (f a)) → SameT t (t.upd k f) :=
+    fun t k f hf => Same.upd TreeOnly.rfl' t k f hf
   split
   · split
-    · exact SameT.tr hA (SameT.tr (child_same _ _ _) (SameT.updParent _ _ _))
+    · split
+      · exact SameT.tr hA (SameT.tr (child_same _ _ _) (SameT.tr (SameT.updParent _ _ _) (keepT _ _ _ (fun a => ⟨rfl, rfl, rfl, rfl, rfl, rfl, rfl, rfl, rfl⟩))))
+      · exact SameT.tr hA (SameT.tr (child_same _ _ _) (SameT.tr (SameT.updParent _ _ _) (keepT _ _ _ (fun a => ⟨rfl, rfl, rfl, rfl, rfl, rfl, rfl, rfl, rfl⟩))))
     · exact hA
   · exact hA
 
@@ -282,7 +286,7 @@ theorem setAttTo_same (c : Ctx) (i sub : Nat) (v : Int) : SameT c.seg (setAttTo 
     · exact SameT.rfl' _
     · split
       · exact SameT.rfl' _
-      · exact attach_same _ _ _
+      · exact attach_same _ _ _ _
   · exact SameT.rfl' _
 
 theorem attrSet_PA {n : Int} (c : Ctx) (a b : Nat) (v : Int) (h : PA n c) : OutcomeP (PA n) (opAttrSet c a b v) := by
@@ -291,7 +295,8 @@ theorem attrSet_PA {n : Int} (c : Ctx) (a b : Nat) (v : Int) (h : PA n c) : Outc
   · trivial
   · split
     · exact AssocOK.sameT h (setAttTo_same _ _ _ _)
-    · exact h
+    · simp only []
+      split <;> first | exact AssocOK.updKeep h _ _ (fun _ => ⟨rfl, rfl, rfl⟩) | exact h
 
 theorem slotat_PA {n : Int} (c : Ctx) (x : Int) (h : PA n c) : PA n (slotat c x).2 := by
   show AssocOK n _; rw [slotat_seg]; exact h
